@@ -18,9 +18,19 @@ import (
 
 var log = logging.Logger("autoconf")
 
-// writeOwnerOnlyFile writes data to a file with owner-only permissions (0600)
+// writeOwnerOnlyFile writes data to a file with owner-only permissions (0600).
+// The data is written to a temporary file that is then renamed into place, so
+// that an interrupted write never leaves a truncated file under the final name.
 func writeOwnerOnlyFile(filename string, data []byte) error {
-	return os.WriteFile(filename, data, filePermOwnerReadWrite)
+	tmp := filename + ".tmp"
+	if err := os.WriteFile(tmp, data, filePermOwnerReadWrite); err != nil {
+		return err
+	}
+	if err := os.Rename(tmp, filename); err != nil {
+		os.Remove(tmp)
+		return err
+	}
+	return nil
 }
 
 const (
